@@ -36,6 +36,8 @@ PIPE_DEVS = {  # deviation -> (invariants that may report it, small configuratio
                                                  ticks=(0, 1), hops=(0,), svcs=(1,))),
     "capacity_raise_no_wake": ({"InvNoIdleWait"}, dict(kinds=("shifted",), limits=(0,), caps=(INF,), nitems=(2,),
                                                        ticks=(0, 2), hops=(0,), svcs=(1,), shts=(1,), shls=(1,))),
+    "set_limit_no_wake": ({"InvNoIdleWait"}, dict(kinds=("server",), limits=(1,), caps=(INF,), nitems=(2,),
+                                                  ticks=(0,), hops=(0,), svcs=(2,), dyns="OneRaise")),
     "shifted_ignores_policy": ({"InvOrder", "InvCapacity"}, dict(kinds=("shifted",), limits=(1,), caps=(1, INF),
                                                                  pols=("lifo",), nitems=(3,), ticks=(0,), hops=(0,),
                                                                  svcs=(1,))),
@@ -47,6 +49,7 @@ KEY_DEV = {
     "driver_polls_once_per_wakeup": "poll_once_per_notify",
     "double_poll_overadmits_non_rejecting_worker": "poll_ignores_inflight",
     "capacity_raise_does_not_wake_driver": "capacity_raise_no_wake",
+    "set_limit_raise_does_not_wake_driver": "set_limit_no_wake",
     "empty_policy_replaced_by_fifo": "shifted_ignores_policy",
 }
 
@@ -62,11 +65,12 @@ def as_code_dev():
 
 
 def pipe_consts(dev=(), keeplog=False, kinds=("server",), limits=(1, 2), caps=(1, INF), pols=("fifo",),
-                nitems=(3,), ticks=(0, 1), hops=(0, 1, 2), svcs=(0, 1), prios=(0,), flows=(1,), shts=(0,), shls=(0,)):
+                nitems=(3,), ticks=(0, 1), hops=(0, 1, 2), svcs=(0, 1), prios=(0,), flows=(1,), shts=(0,), shls=(0,),
+                dyns="NoDyn"):
     return {"Dev": S(dev), "PDev": "{}", "KeepLog": "TRUE" if keeplog else "FALSE", "Kinds": S(kinds),
             "Limits": S(limits), "Caps": S(caps), "Pols": S(pols), "NItems": S(nitems), "Ticks": S(ticks),
             "Hops": S(hops), "Svcs": S(svcs), "Prios": S(prios), "Flows": S(flows), "ShiftTs": S(shts),
-            "ShiftLs": S(shls)}
+            "ShiftLs": S(shls), "Dyns": f"<- {dyns}"}
 
 
 def pol_consts(pdev=(), maxops=5, nf=3, params="MCAll", weights="MCWeights"):
@@ -183,7 +187,7 @@ def trace_cfg(wd, dev):
     return tlc.write_cfg(wd / "trace.cfg", spec="TSpec", constants={
         "Dev": S(dev), "KeepLog": "TRUE", "PDev": empty, "Kinds": empty, "Limits": empty, "Caps": empty,
         "Pols": empty, "NItems": empty, "Ticks": empty, "Hops": empty, "Svcs": empty, "Prios": empty,
-        "Flows": empty, "ShiftTs": empty, "ShiftLs": empty})
+        "Flows": empty, "ShiftTs": empty, "ShiftLs": empty, "Dyns": empty})
 
 
 def validate(traces, dev, label, parallel=4):
@@ -248,7 +252,9 @@ def classify(tr, verdict, pos, model_agrees=False):
         pops_T = [k for k, r in at_T if r[0] == "pop"]
         if raised_at is not None and not any(k > raised_at for k in pops_T):
             # the limit went up at this instant while items were queued and nothing was dequeued afterwards
-            return "capacity_raise_does_not_wake_driver"
+            # (ShiftedServer shift change / DynamicConcurrency.set_limit on a Server: two different sites)
+            return ("set_limit_raise_does_not_wake_driver" if wk == "server_dyn"
+                    else "capacity_raise_does_not_wake_driver")
         pops = [k for k, r in enumerate(prev) if r[0] == "pop"]
         if pops:
             k = pops[-1]
@@ -549,7 +555,7 @@ def judge(chk, traces, meta, ascode, cex=None, second_pass=True):
             dev = KEY_DEV.get(key)
             # a known finding explains the failure only if the implementation model (with the known
             # deviations) agreed with the code up to the failing record
-            if dev is not None and tr["hassc"] == 1 and qv != "OK" and qpos <= pos:
+            if dev is not None and key in chk.known_open and tr["hassc"] == 1 and qv != "OK" and qpos <= pos:
                 key = v[5:] + "_unmodelled"
             chk.violation(key, f"{v} at record {pos} of a {m['origin']} execution "
                                f"(component {tr.get('wk')}, policy {tr['prm']['kind']})",
